@@ -85,17 +85,25 @@ package lexer
 //@ pred letter(c byte) = ('a' <= c && c <= 'z') || ('A' <= c && c <= 'Z') || c == '_' || c == '-'
 //@ pred digit(c byte) = ('0' <= c && c <= '9') || c == '.'
 
+// C02: a double-quoted literal denotes the bytes between its quotes with \" standing for a quote; it ends
+// at the first quote that is not preceded by a backslash (or at the end of the input)
 //@ func (l *Lexer) readString
 //@ requires linv(l) && l.ch == '"'
 //@ ensures inv: lprogress(l) && l.inside == old(l.inside) && fuel(l) < old(fuel(l))
+//@ ensures text: result == replaceAll(l.input[old(l.position)+1:l.position], "\\\"", "\"")
+//@ ensures ends: l.ch == '"' || l.ch == 0
 //@ assigns l.ch, l.position, l.readPosition, l.curLine
 //@ loop 1: invariant linv(l) && l.input == old(l.input) && l.inside == old(l.inside) && fuel(l) <= old(fuel(l)) && l.position <= len(l.input) && position == old(l.position)+1
 //@ loop 1: invariant started: (l.position == old(l.position) && l.ch != 0) || (l.position >= position && fuel(l) < old(fuel(l)))
 //@ loop 1: decreases fuel(l)
 
+// C02: a back-quoted literal is taken raw up to the next back quote
 //@ func (l *Lexer) readBString
 //@ requires linv(l) && l.ch == '`'
 //@ ensures inv: lprogress(l) && l.inside == old(l.inside) && fuel(l) < old(fuel(l))
+//@ ensures text: result == l.input[old(l.position)+1:l.position]
+//@ ensures ends: l.ch == '`' || l.ch == 0
+//@ ensures raw: forall j int :: old(l.position) < j && j < l.position ==> l.input[j] != '`'
 //@ assigns l.ch, l.position, l.readPosition, l.curLine
 //@ loop 1: invariant linv(l) && l.input == old(l.input) && l.inside == old(l.inside) && fuel(l) <= old(fuel(l)) && l.position <= len(l.input) && position == old(l.position)+1
 //@ loop 1: invariant started: (l.position == old(l.position) && l.ch != 0) || (l.position >= position && fuel(l) < old(fuel(l)))
